@@ -29,6 +29,7 @@ enum UiOp {
     DropInjector { h: u32 },
     Spawn { w: u32, h: u32, move_handle: bool },
     Reparse { col: u32, text: String },
+    ReparseOpts { col: u32, text: String, case: u8, norm: u8 },
     Tick { timeout: u64 },
     Restart { clear: bool },
     JoinWriters,
@@ -119,12 +120,12 @@ fn run_script(sc: &Script) -> Vec<String> {
         }
         _ => Config::DEFAULT,
     };
-    let case = match sc.case {
+    let case_of = |c: u8| match c {
         1 => CaseMatching::Ignore,
         2 => CaseMatching::Respect,
         _ => CaseMatching::Smart,
     };
-    let norm = match sc.norm {
+    let norm_of = |n: u8| match n {
         1 => Normalization::Never,
         _ => Normalization::Smart,
     };
@@ -132,6 +133,7 @@ fn run_script(sc: &Script) -> Vec<String> {
     let mut n: Nucleo<Item> = Nucleo::new(config, Arc::new(|| ()), Some(sc.pool_threads as usize), sc.columns);
     let mut handles: Vec<Option<Injector<Item>>> = Vec::new();
     let mut texts = vec![String::new(); cols];
+    let mut opts = vec![(sc.case, sc.norm); cols];
     let mut spawned = std::collections::BTreeSet::new();
     let mut out = Vec::new();
     let pick = |handles: &Vec<Option<Injector<Item>>>, h: u32| -> Option<usize> {
@@ -171,11 +173,18 @@ fn run_script(sc: &Script) -> Vec<String> {
                 };
                 run_writer(&inj, &sc.writers[w], cols);
             }
-            UiOp::Reparse { col, text } => {
+            UiOp::Reparse { .. } | UiOp::ReparseOpts { .. } => {
+                let (col, text, o) = match op {
+                    UiOp::Reparse { col, text } => (col, text, None),
+                    UiOp::ReparseOpts { col, text, case, norm } => (col, text, Some((*case, *norm))),
+                    _ => unreachable!(),
+                };
                 let c = *col as usize % cols;
-                let append = text.starts_with(&texts[c]);
-                n.pattern.reparse(c, text, case, norm, append);
+                let new_opts = o.unwrap_or(opts[c]);
+                let append = text.starts_with(&texts[c]) && new_opts == opts[c];
+                n.pattern.reparse(c, text, case_of(new_opts.0), norm_of(new_opts.1), append);
                 texts[c] = text.clone();
+                opts[c] = new_opts;
             }
             UiOp::Tick { timeout } => {
                 n.tick(*timeout);
